@@ -388,5 +388,5 @@ def obligations(tier):
     out.append(Obligation('dyndeps-closure', ob_dyndeps(), dict(real='NinjaBackend.generate_dependency_scan_target / should_use_dyndeps_for_target / get_dep_scan_file_for', targets='an executable + 1-2 static libraries (optionally chained)', per_target='plain C | plain C++ | C++ with a modules flag | Fortran', generation_order='both'), labels=('scanning', 'none')))
     for dim in (('inputs', 'consumers') if q else ('all',)):
         out.append(Obligation('project-graph[%s]' % dim, ob_project(dim), dict(real='Interpreter.run + NinjaBackend.generate on a generated project without a compiled language', targets='3 custom targets (1-2 outputs), generator, configure_file, alias / run target, test / benchmark, subdirectory',
-                              symbolic='build_by_default x2, build_always_stale, install, the index into a multi-output target', varies=dim), labels=('done', 'default', 'test') if dim != 'inputs' else ('done', 'default', 'generator'), max_paths=2000000, path_timeout=300))
+                              symbolic='build_by_default x2, build_always_stale, install, the index into a multi-output target', varies=dim), labels=('done', 'default', 'test') if dim != 'inputs' else ('done', 'default', 'generator'), max_paths=2000000, path_timeout=300, classify=__import__('harness.proj', fromlist=['classify']).classify))
     return out
